@@ -398,3 +398,318 @@ def hint_values(ctx, lo, hi, cap=12, maps=(lambda c: c,)):
                     if y == y and lo <= y <= hi and y not in out:
                         out.append(y)
     return out[:cap]
+
+
+def hint_consts(ctx, lo=2, hi=2 ** 22, cap=8):
+    """integer constants the changed source may be USING, inside [lo, hi]: the new integer literals themselves (core.source_literals folds constant
+    arithmetic: `2 ** 16` arrives as 2, 16 and 65536), then the values two new literals of the same function can form (a ** b, a * b,
+    1 << b == 2 ** b: a constant built in two statements, `KB = 1024; BLOCK = 64 * KB`); largest first within each group.  [] without hints."""
+    h = getattr(ctx, 'hints', None)
+    if not h:
+        return []
+    by_fn = {}
+    for e in h.new:
+        v = e.get('value')
+        if isinstance(v, float) and v.is_integer() and abs(v) < 2 ** 53:
+            v = int(v)
+        if isinstance(v, int) and not isinstance(v, bool) and 1 <= abs(v) <= hi:
+            by_fn.setdefault(e.get('function'), set()).add(abs(v))
+    raw, derived = set(), set()
+    for vals in by_fn.values():
+        for a in vals:
+            if a >= 2:
+                raw.add(a)
+            if a <= 62:
+                derived.add(2 ** a)
+            for b in vals:
+                if a >= 2 and b >= 2:
+                    derived.add(a * b)
+                    if b * math.log(a) <= math.log(hi) + 1:
+                        derived.add(a ** b)
+    derived = sorted((c for c in derived if lo <= c <= hi and c not in raw), reverse=True)
+    raw = sorted((c for c in raw if lo <= c <= hi), reverse=True)
+    return (raw + derived)[:cap]
+
+
+# ---- round 7 (hx_r7b): "ulp-extremum" series -- neighbouring samples that differ in the last bits, AT turning points, on plateaus and at the ends ------
+# Every double is a rational number, so the exact models and the exact (Fraction) oracles of C11 / C12 / C13 apply unchanged: a sample one unit in
+# the last place above its neighbours IS a strict local maximum, two samples one ulp apart are NOT a plateau.  (Guards against 'equal up to
+# round-off' comparisons: np.isclose, a tolerance of a few eps times the magnitude, float32 round trips, rounding to n digits.)
+# Zero samples are never moved (the neighbours of 0 are subnormal: products of neighbouring differences would underflow -- documented limitation).
+
+ULP_MAGS = (0.3, 1e-3, 1e3, 7.0, 1.0 / 3, 123.456, 1.0, 0.1, 2.5e-3, 640.0, 1.9999, 4.0e-2)
+
+
+def ulp_move(x, k):
+    """the double k units in the last place away from x (k < 0: towards -inf); 0.0 and non-finite values stay"""
+    x = float(x)
+    if x == 0.0 or not math.isfinite(x):
+        return x
+    for _ in range(abs(int(k))):
+        x = float(np.nextafter(x, math.inf if k > 0 else -math.inf))
+    return x
+
+
+def one_binade_levels(e):
+    """8 levels strictly inside the binade [2^e, 2^(e+1)): every sum / difference of these levels and of their ulp-neighbours is exact in binary64
+    (all are multiples of 2^(e-52) below 2^(e+1)) -- for properties whose clauses are equalities on computed differences (C13)"""
+    return tuple(2.0 ** e * (1 + j / 16) for j in (2, 4, 5, 7, 9, 11, 12, 14))
+
+
+def ulp_extremum_series(rng, n, one_binade=False, kinds=None):
+    """(kind, float ndarray of length n >= 4).  kinds:
+    'plateau-ripple'  a plateau-rich few-level series at a magnitude of ULP_MAGS (or inside one binade), 15-60 % of the non-zero samples moved by +-1..3 ulp:
+                      plateaus become last-bit zigzags / creeps, crests that are plateaus get a strict extremum inside, the ends differ by ulps;
+    'crest'           monotone runs joined by crests / troughs of 2-4 samples within 1-3 ulp of each other whose strict extremum is a middle or an end sample
+                      (..., 0.3, 0.1+0.2, 0.3, ...), first / last samples within ulps of their neighbours;
+    'fine-crest'      A*cos((i-c)*h) with h ~ 1e-8: a smooth signal sampled so finely that neighbouring samples at the crest differ by a few ulps or not at all;
+    'ulp-only'        a constant non-zero level, every sample moved by -2..2 ulp."""
+    n = max(int(n), 4)
+    kind = rng.choice(kinds or ['plateau-ripple', 'plateau-ripple', 'crest', 'crest', 'fine-crest', 'ulp-only'])
+    if one_binade:
+        lv = one_binade_levels(rng.choice([-10, -1, 0, 3, 9]))
+        sgn = rng.choice([1.0, -1.0])
+        levels = [sgn * x for x in lv]
+        mag = None
+    else:
+        mag = rng.choice(ULP_MAGS) * rng.choice([1.0, 1.0, -1.0])
+        levels = [mag * j for j in (-2, -1, 0, 1, 2, 3)]
+    if kind == 'fine-crest':
+        if one_binade:
+            kind = 'crest'
+        else:
+            h = rng.choice([1e-8, 3e-8, 1e-7, 2e-9])
+            c = rng.uniform(0.2, 0.8) * n
+            v = mag * np.cos((np.arange(n) - c) * h)
+            if rng.random() < 0.5:                     # ... followed by the mirrored trough of the other sign
+                v = np.concatenate([v[:n // 2 + 1], -v[::-1][:n - n // 2 - 1]])
+            return kind, np.array(v, dtype=float)
+    if kind == 'ulp-only':
+        base = rng.choice([x for x in levels if x != 0])
+        return kind, np.array([ulp_move(base, rng.randint(-2, 2)) for _ in range(n)], dtype=float)
+    if kind == 'plateau-ripple':
+        b = plateau_record(rng, n, levels=levels, p_repeat=rng.choice([0.4, 0.6, 0.8]))
+        q = rng.choice([0.15, 0.3, 0.6])
+        return kind, np.array([ulp_move(x, rng.choice([-3, -2, -1, 1, 2, 3])) if rng.random() < q else x for x in b], dtype=float)
+    # 'crest'
+    out = []
+    cur = rng.choice(levels)
+    up = rng.random() < 0.5
+    nz = [x for x in levels if x != 0]
+    while len(out) < n:
+        # a crest / trough: 2-4 samples within ulps of one non-zero level; the strict extremum anywhere among them
+        top = rng.choice([x for x in nz if (x > cur) == up and x != cur] or nz)
+        m = rng.randint(2, 4)
+        offs = [rng.randint(-3, 3) for _ in range(m)] if rng.random() < 0.6 else [0] * m
+        if rng.random() < 0.6:
+            j = rng.randrange(m)
+            offs = [0] * m
+            offs[j] = rng.choice([1, 2, 3]) * (1 if (top > 0) == up else -1) * (1 if rng.random() < 0.8 else -1)
+        # monotone run towards the crest (1-3 intermediate samples, exact fractions of the way are not needed: any values strictly between)
+        k = rng.randint(0, 3)
+        run = sorted([cur + (top - cur) * rng.choice([0.25, 0.5, 0.75]) for _ in range(k)], reverse=top < cur) if not one_binade else \
+            sorted([x for x in levels if min(cur, top) < x < max(cur, top)][:k], reverse=top < cur)
+        out += run + [ulp_move(top, o) for o in offs]
+        cur = top
+        up = not up
+    out = out[:n]
+    if rng.random() < 0.4 and out[0] != 0:
+        out[1] = ulp_move(out[0], rng.choice([-2, -1, 1, 2]))
+    if rng.random() < 0.4 and out[-1] != 0:
+        out[-2] = ulp_move(out[-1], rng.choice([-2, -1, 0, 1, 2]))
+    return kind, np.array(out, dtype=float)
+
+
+def ulp_extremum_exhaustive(max_k=4, offsets=(-1, 0, 1), mags=(0.3, 1e3, 7e-3), one_binade=False):
+    """every pattern of ulp offsets of length 2..max_k on one non-zero level L, alone and embedded in the four contexts rise-fall (l, pattern, l), rise-rise
+    (l, pattern, h), fall-rise (h, pattern, h), fall-fall (h, pattern, l) -- the magnitude rotates over `mags`.  Yields (label, tuple of floats)."""
+    import itertools
+    i = 0
+    for k in range(2, max_k + 1):
+        for offs in itertools.product(offsets, repeat=k):
+            for cname in ('alone', 'rise-fall', 'rise-rise', 'fall-rise', 'fall-fall'):
+                m = mags[i % len(mags)]
+                i += 1
+                if one_binade:
+                    lv = one_binade_levels({0.3: -2, 1e3: 9, 7e-3: -8}.get(m, 0))
+                    lo, L, hi = lv[1], lv[4], lv[6]
+                else:
+                    lo, L, hi = m / 3, m, m * 1.7
+                mid = tuple(ulp_move(L, o) for o in offs)
+                if cname == 'alone':
+                    if len(set(mid)) < 2:
+                        continue
+                    v = mid
+                else:
+                    a, b = {'rise-fall': (lo, lo), 'rise-rise': (lo, hi), 'fall-rise': (hi, hi), 'fall-fall': (hi, lo)}[cname]
+                    v = (a,) + mid + (b,)
+                yield 'ulp-exhaustive/' + cname, v
+
+
+# ---- round 7 (hx_r7b): refill_oracle, extended -- state handed from one public function of a module to another through the array OBJECT -------------
+# Between two analyses of the same ndarray object every OTHER public function of the module(s) the analysed functions live in is called on it too
+# (results ignored, exceptions swallowed, <= 2 s each: probe._run), on contents that make such helpers leave through their early exits (one-sided, monotone,
+# short, constant-but-one, all-zero-tail records) as well as on ordinary ones, and the object is then edited in place in several ways (offset removal,
+# scaling, reversal, trimming, refill, ...).  Whatever a helper left behind (a module-level 'current record', a memo keyed on id(), a cached float copy),
+# the analysed function must describe the CURRENT content: got (same object) == want (fresh array with the same content).
+
+REFILL_CONTENTS = ('as-made', 'one-sided', 'one-sided-negative', 'monotone', 'short', 'constant-but-one', 'zero-tail')
+REFILL_EDITS = ('refill', 'negate', 'one-sample', 'offset', 'scale', 'reverse', 'trim')
+_SIBLING_ARGS = {'dt': 0.01, 'a_ref': 1.0, 'b': 0.3, 'n_cyc': 5, 'threshold': 0.1, 'ratio': 0.5, 'xi': 0.05}
+
+
+def _eqsig_modules_of(fns):
+    """the eqsig modules the analysed functions live in (a plain function: its module; a lambda: the eqsig modules / functions it refers to)"""
+    import inspect
+    import sys
+    mods = []
+
+    def add(name):
+        m = sys.modules.get(name)
+        if m is not None and name.startswith('eqsig') and m not in mods:
+            mods.append(m)
+    for f in fns:
+        g = getattr(f, '__wrapped__', f)
+        if str(getattr(g, '__module__', '')).startswith('eqsig'):
+            add(g.__module__)
+            continue
+        try:
+            cv = inspect.getclosurevars(g)
+            refs = list(cv.nonlocals.values()) + list(cv.globals.values())
+        except Exception:  # noqa
+            refs = []
+        for r in refs:
+            if inspect.ismodule(r):
+                add(r.__name__)
+            elif callable(r) and str(getattr(getattr(r, '__wrapped__', r), '__module__', '')).startswith('eqsig'):
+                add(getattr(r, '__wrapped__', r).__module__)
+    return mods
+
+
+def module_siblings(mods):
+    """[(qualified name, original function, how to call it on one array)] for every public function defined in the modules; parameters after the first that
+    have no default are filled from a small table by name (a second record parameter gets the SAME object), functions that need anything else are skipped"""
+    import inspect
+    out = []
+    for m in mods:
+        for name, obj in sorted(vars(m).items()):
+            g = getattr(obj, '__wrapped__', obj)
+            if name.startswith('_') or not inspect.isfunction(g) or getattr(g, '__module__', None) != m.__name__ or name.startswith('plot'):
+                continue
+            try:
+                ps = list(inspect.signature(g).parameters.values())
+            except Exception:  # noqa
+                continue
+            if not ps or ps[0].kind not in (ps[0].POSITIONAL_ONLY, ps[0].POSITIONAL_OR_KEYWORD):
+                continue
+            extra, ok = [], True
+            for p in ps[1:]:
+                if p.default is not p.empty or p.kind in (p.VAR_POSITIONAL, p.VAR_KEYWORD):
+                    break
+                if p.name in _SIBLING_ARGS:
+                    extra.append(_SIBLING_ARGS[p.name])
+                elif p.name.startswith('values') or p.name in ('zvals', 'motion'):
+                    extra.append(None)                      # None = the record object itself
+                else:
+                    ok = False
+                    break
+            if ok and not any(g is o for _, o, _ in out):
+                out.append((m.__name__ + '.' + name, g, extra))
+    return out
+
+
+def _refill_content(rng, kind, base):
+    a = np.array(base, dtype=float, copy=True)
+    n = len(a)
+    if kind == 'one-sided':
+        return np.abs(a) + rng.choice([0.5, 1.0, 2.5])
+    if kind == 'one-sided-negative':
+        return -np.abs(a) - rng.choice([0.5, 1.0])
+    if kind == 'monotone':
+        s = np.sort(a) if rng.random() < 0.5 else np.sort(a)[::-1].copy()
+        return s + (np.arange(n) * 0.125 if s[0] <= s[-1] else -np.arange(n) * 0.125)
+    if kind == 'short':
+        return a[:rng.randint(2, 4)].copy()
+    if kind == 'constant-but-one':
+        c = np.full(n, rng.choice([-2.0, 1.0, 3.0]))
+        c[rng.randrange(n)] += rng.choice([-1.0, 1.0, 4.0])
+        return c
+    if kind == 'zero-tail':
+        a[rng.randint(2, max(2, n // 3)):] = 0.0
+        return a
+    return a
+
+
+def _refill_edit(rng, op, buf, second):
+    n = len(buf)
+    if op == 'refill':
+        buf[...] = second[:n]
+    elif op == 'negate':
+        buf *= -1.0
+    elif op == 'one-sample':
+        buf[rng.randrange(n)] += rng.choice([5.0, -5.0, -20.0])
+    elif op == 'offset':                       # removal of an offset in place: the mean, the median, the first sample, a level inside the range (exact on dyadic data)
+        buf -= rng.choice([float(np.median(buf)), float(buf[0]), float(np.round(np.mean(buf) * 8) / 8), (float(buf.min()) + float(buf.max())) / 2])
+    elif op == 'scale':
+        buf *= rng.choice([-0.5, 2.0, -4.0, 0.25])
+    elif op == 'reverse':
+        buf[...] = buf[::-1].copy()
+    else:                                      # trim: the tail (or the head) set to zero
+        k = rng.randint(1, max(1, n - 1))
+        if rng.random() < 0.5:
+            buf[k:] = 0.0
+        else:
+            buf[:k] = 0.0
+
+
+_refill_oracle_r5 = refill_oracle
+
+
+def refill_oracle(ctx, clause, fns, rng, make, n_rep=6, inputs_extra=None, siblings=None):
+    """round 5 behaviour (unchanged, first) + for every analysed function, every kind of first content (REFILL_CONTENTS) and every in-place edit (REFILL_EDITS):
+    analyse the buffer, call every other public function of the module(s) on the SAME object, edit it in place, analyse again -> must equal the analysis of a
+    fresh array with that content.  siblings: list of modules (default: the eqsig modules the analysed functions live in / refer to)."""
+    from core import call_impl
+    _refill_oracle_r5(ctx, clause, fns, rng, make, n_rep=n_rep, inputs_extra=inputs_extra)
+    try:
+        import probe
+        run_extra = probe._run
+    except Exception:  # noqa
+        def run_extra(f, a, k, limit=2.0):
+            try:
+                return ('ok', f(*a, **k))
+            except Exception as e:  # noqa
+                return ('err', type(e).__name__)
+    sibs = module_siblings(siblings if siblings is not None else _eqsig_modules_of(list(fns.values())))
+    ctx.hist('refill/sibling functions called on the same object', len(sibs))
+    for rep in range(max(1, n_rep // 4)):
+        for label, f in fns.items():
+            target = getattr(f, '__wrapped__', f)
+            for kind in REFILL_CONTENTS:
+                for op in REFILL_EDITS:
+                    base, second = make(rng), make(rng)
+                    first = _refill_content(rng, kind, base)
+                    if second.shape != base.shape or len(first) < 2:
+                        continue
+                    buf = np.array(first, copy=True)
+                    r1 = call_impl(f, buf)
+                    called = []
+                    order = list(sibs)
+                    rng.shuffle(order)
+                    for qn, g, extra in order:
+                        if g is target:
+                            continue
+                        keep = buf.copy()
+                        res = run_extra(g, (buf,) + tuple(buf if e is None else e for e in extra), {}, limit=2.0)
+                        called.append(qn.split('.')[-1] + ('' if res[0] == 'ok' else ' (' + str(res[1]) + ')'))
+                        if not np.array_equal(buf, keep, equal_nan=True):
+                            buf[...] = keep                       # a helper that edits its argument: the designed content is put back (in place)
+                    _refill_edit(rng, op, buf, np.asarray(second, dtype=float))
+                    got = call_impl(f, buf)                               # FIRST the same object ...
+                    want = call_impl(f, np.array(buf, copy=True))         # ... then a fresh array with the same content
+                    ok = want[0] == got[0] and (want[0] != 'ok' or _same_any(want[1], got[1]))
+                    ctx.hist('same array object: other functions of the module called on it, changed in place, analysed again/' + kind + '/' + op)
+                    ctx.oracle(clause % label, ok, {'first_content': first, 'first_content_kind': kind, 'other public functions called on the same object in between': called,
+                                                    'then_in_place': op, 'content_at_second_call': np.array(buf, copy=True), **(inputs_extra or {})},
+                               detail=None if ok else {'fresh array': want[1] if want[0] != 'ok' else _brief_any(want[1]), 'same object': got[1] if got[0] != 'ok' else _brief_any(got[1]),
+                                                       'first call': r1[0]})
